@@ -70,14 +70,14 @@ CHECKS["C20"] = {
 CHECKS["C01"] = {
   "category": "other",
   "technique": "contract-based deductive verification of the record-emitting operations (aspirate, dispense, distribute, transfer on small symbolic shapes; modular use of the Labware.add/remove, emitter and numbering contracts) + bounded replay monitor with an independent .gwl interpreter for operation sequences",
-  "text": "Proved on the real bodies, for both devices, plates and troughs with symbolic geometry, 1-3 wells with symbolic ids/volumes/labels/keyword arguments: aspirate/dispense append, after the label comment, exactly one A/D record per pair with a positive volume, in order, each naming the labware and the device-specific position of the well the operation named and the volume that the Labware tracking applied (remove/add contracts, C04), so replaying the records reproduces the tracked volumes (I_sync). Sequences of operations, large-volume splitting and compositions are explored by the bounded monitor (independent interpreter of the worklist format).",
+  "text": "Proved on the real bodies, for both devices, plates and troughs with symbolic geometry, well lists of ANY length (loop invariant over ghost functions counting / selecting the positive pairs) and 1-3 wells with symbolic labels / keyword arguments: aspirate/dispense append, after the label comment, exactly one A/D record per pair with a positive volume, in order, each naming the labware and the device-specific position of the well the operation named and the volume that the Labware tracking applied (remove/add contracts, C04), so replaying the records reproduces the tracked volumes (I_sync). Sequences of operations, large-volume splitting and compositions are explored by the bounded monitor (independent interpreter of the worklist format).",
   "note": "Mixed level; bounded parts are labelled in the evidence and never counted as proved. Known finding (Fluent distribute source range) is listed in known_findings.json. float = real; per-record rounding to 2 decimals is the `.2f` axiom.",
 }
 CHECKS["C03"] = {
   "category": "other",
   "technique": "contract-based deductive verification with exceptional postconditions at every raise exit (records appended so far are a prefix of the accepted steps; labware update precedes emission; step <= max_volume) + frame obligations + bounded fault-injection monitor",
   "text": "Proved on the real bodies: at every raise exit of aspirate / dispense (own raises, KeyError for unknown wells, VolumeUnderflow/OverflowError of the labware contract, ValueError / InvalidOperationError of the emitter contract) the record list is the old list plus a prefix of the records of the accepted update, and either nothing was appended or the labware already holds the accepted update; aspirate_well/dispense_well append nothing on a raise and every appended step has volume <= max_volume (InvalidOperationError otherwise); __exit__ saves whatever is in the list for every exc_type. Operation sequences with a failing last operation are explored by the bounded monitor (replay of the records after every operation and after the failure).",
-  "note": "Mixed level (deductive for the single operations on shapes of 1-3 wells, bounded for sequences / transfer / distribute until their contracts carry the clause). float = real.",
+  "note": "Mixed level: aspirate/dispense are proved for well lists of any length, distribute for 1-3 destinations, transfer for 1-2 triples without splitting; longer transfers, splitting and operation sequences are bounded. float = real.",
 }
 _BOUNDED_ONLY = {
  "C05": "Composition: exact-Fraction replay of seeded + enumerated operation histories (transfers incl. serial dilutions in one call, same-well, emptied-and-refilled wells, zero volumes, troughs, shared names) on real Labware/worklist objects; fractions finite, in [0,1], sum to 1, removal-invariant, component totals conserved; all naming configurations enumerated.",
